@@ -54,6 +54,21 @@ func gen(r *Rng, tier string, emit Emit) {
 	for it := 0; it < nsh; it++ {
 		emit("P", "p_c02_shrink", N(r.Fork(uint64(6500000+it)).U64()))
 	}
+	// every size threshold of the format, hit exactly by a regenerated section / a rebuilt file
+	// (built in the worker): N-1, N, N+1 around 0xFFFFFF for the section header form and for the
+	// file header form
+	nex := 1
+	if tier == "thorough" {
+		nex = 6
+	}
+	for it := 0; it < nex; it++ {
+		for _, n := range []uint64{0xFFFFFE, 0xFFFFFF, 0x1000000, 0x1000003} {
+			emit("P", "p_c02_exact", "sec", N(n), N(r.Fork(uint64(6600000+it)).U64()+n))
+		}
+		for _, n := range []uint64{0xFFFFFE, 0xFFFFFF, 0x1000000} {
+			emit("P", "p_c02_exact", "file", N(n), N(r.Fork(uint64(6700000+it)).U64()+n))
+		}
+	}
 	// images of the general grammar (all section kinds, arbitrary names): model correspondence
 	for it := 0; it < ngr; it++ {
 		rr := r.Fork(uint64(5000000 + it))
